@@ -6,8 +6,8 @@ COMP = Component(
     tiers={
         'quick': dict(design_cfg='SchedMC_small.cfg', sim_num=2400, sim_depth=60, seeds_per_behaviour=1,
                       rnd_num=2000, rnd_len=25, design_timeout=900),
-        'thorough': dict(design_cfg='SchedMC_thorough.cfg', sim_num=32000, sim_depth=80, seeds_per_behaviour=2,
-                         rnd_num=40000, rnd_len=50, design_timeout=7000),
+        'thorough': dict(design_cfg='SchedMC_thorough.cfg', sim_num=12000, sim_depth=80, seeds_per_behaviour=2,
+                         rnd_num=16000, rnd_len=50, design_timeout=7000),
     },
     rule='design: TLC exhaustive over SchedMC within the cfg bounds (every timetable of the bounded family, cyclical / not / '
          'unspecified, register and unregister calls before the run, between runs and from other events at higher and lower '
